@@ -7,7 +7,7 @@ for id in "$@"; do
   for mode in clean seed; do
     ( exec 9>/tmp/st.lock; flock 9
       if [ -n "$(git -C /repo status --porcelain)" ]; then echo "REPO-NOT-CLEAN"; exit 3; fi
-      if [ $mode = seed ]; then git -C /repo apply /tmp/wt2/$id/MUTATION.diff || { echo PATCH-DOES-NOT-APPLY; exit 3; }; fi
+      if [ $mode = seed ]; then git -C /repo apply ${WTROOT:-/tmp/wt2}/$id/MUTATION.diff || { echo PATCH-DOES-NOT-APPLY; exit 3; }; fi
       $snap/check $id quick > /tmp/st_${id}_$mode.out 2>&1; rc=$?
       git -C /repo checkout -- . ; git -C /repo clean -fdq
       echo "$id $mode rc=$rc" )
